@@ -76,8 +76,8 @@ def check(ctx):
         ctx.expect(ok, "C11.5", "is-empty/all-fields", fe["sp"], "is_empty is the conjunction over all %d lists %s" % (len(fields), fields), "is_empty is `%s`" % t)
     Q = "scale_info::Path{segments:Iterator::collect(Iterator::map(Punctuated::iter(P1.segments),|1|{ToString::to_string(C1_0.ident)}))}"
     expect_fn(ctx, "C11.6", "similar-paths", "validation::similar_type_paths_in_registry",
-              "if(let v1::Some($)=Path::ident(%s)){Iterator::collect(Iterator::filter_map(P0.types,|1|{if((let v1::Some($)=Path::ident(C1_0.ty.path)&&"
-              "(Path::ident(C1_0.ty.path)@v1::Some.0==Path::ident(%s)@v1::Some.0))){TryIntoSynPath::syn_path(C1_0.ty.path)}else{v1::None}}))}else{Vec::new()}" % (Q, Q),
+              "if(let v1::Some($)=Path::ident(%s)){Iterator::collect(Iterator::filter_map(P0.types,|1|{if((Path::ident(C1_0.ty.path)?==Path::ident(%s)@v1::Some.0))"
+              "{TryIntoSynPath::syn_path(C1_0.ty.path)}else{v1::None}}))}else{Vec::new()}" % (Q, Q),
               "registry paths whose last identifier equals the query's last identifier, in registry order (order-preserving filter_map); empty query -> empty list", S)
     fs = [b for b in q.fn_by_suffix(P, "TryIntoSynPath>::syn_path", S) if "scale_info::Path" in b["path"]]
     if len(fs) == 1:
